@@ -200,7 +200,9 @@ fn eval_case(line: &str) -> String {
                         Ok(again) => again.len() == 1 && { let a = again[0].clone(); a.clone().path() == path && std::ptr::eq(a.val(), val) },
                         Err(_) => false,
                     };
-                    format!("{{\"p\":{},\"l\":{},\"v\":{},\"rq\":{}}}", cps(&path), if found { format!("[{}]", acc.join(",")) } else { "\"NOTFOUND\"".into() }, canon(val), rq)
+                    // the reported path fed back to `reference` must give this very node
+                    let rf = doc.reference(path.clone()).map_or(false, |n| std::ptr::eq(n, val));
+                    format!("{{\"p\":{},\"l\":{},\"v\":{},\"rq\":{},\"rf\":{}}}", cps(&path), if found { format!("[{}]", acc.join(",")) } else { "\"NOTFOUND\"".into() }, canon(val), rq, rf)
                 }).collect();
                 format!("{{\"ok\":[{}],\"entrypoints_agree\":{}}}", items.join(","), agree)
             }
